@@ -58,7 +58,10 @@ def gen_model(rng, modname, profile="orm"):
                     target = rng.choice(cands)
             if kind in ("self_opt", "self_list"):
                 target = nm
-            fields.append({"name": fname, "kind": kind, "target": target})
+            fd = {"name": fname, "kind": kind, "target": target}
+            if kind in OPT_DEFAULTS and rng.random() < 0.5:
+                fd["dflt"] = True       # an Optional field whose default is not None
+            fields.append(fd)
         classes.append({"name": nm, "parent": parent, "fields": fields})
     order = list(names)
     rng.shuffle(order)
@@ -86,8 +89,13 @@ def _ancestors_and_self(name, classes, parent):
     return out
 
 
+OPT_DEFAULTS = {"opt_int": "7", "opt_str": "'dflt'", "opt_float": "2.5", "opt_enum": "Color.G"}
+
+
 def annotation(f):
     k, t = f["kind"], f["target"]
+    if k in OPT_DEFAULTS and f.get("dflt"):
+        return ANNOT[k][0], OPT_DEFAULTS[k]
     if k in ANNOT:
         return ANNOT[k]
     if k == "ref":
